@@ -777,8 +777,11 @@ class Channel:
                 error.warn()
         elif self._receiveclosed.is_set():
             # state transition "sendonly" --> "deleted"
-            # the remote channel is already in "deleted" state, nothing to do
-            pass
+            # the remote channel object is already deleted, but a callback
+            # may still be registered there, waiting for the end of our side
+            if Message is not None:
+                with suppress(OSError, ValueError):  # ignore problems with sending
+                    self.gateway._send(Message.CHANNEL_CLOSE, self.id)
         else:
             # state transition "opened" --> "deleted"
             # check if we are in the middle of interpreter shutdown
@@ -857,14 +860,21 @@ class Channel:
             # threads warning: the channel might be closed under our feet,
             # but it's never damaging to send too many CHANNEL_CLOSE messages
             # however, if the other side triggered a close already, we
-            # do not send back a closed message.
-            if not self._receiveclosed.is_set():
-                put = self.gateway._send
+            # do not send back a closed message (we are "closed" then).
+            # In the "sendonly" state the other side has only dropped its
+            # channel object: a callback may still be waiting there for our
+            # close, so we send it, but the connection may be gone already.
+            sendonly = self._receiveclosed.is_set()
+            put = self.gateway._send
+            try:
                 if error is not None:
                     put(Message.CHANNEL_CLOSE_ERROR, self.id, dumps_internal(error))
                 else:
                     put(Message.CHANNEL_CLOSE, self.id)
                 self._trace("sent channel close message")
+            except OSError:
+                if not sendonly:
+                    raise
             if isinstance(error, RemoteError):
                 self._remoteerrors.append(error)
             self._closed = True  # --> "closed"
